@@ -1,6 +1,6 @@
 // Package c02 decides property C02: decoding arbitrary bytes is safe (no panic,
 // no hang, bounded memory). Generator: pkg/hostile; oracle inside the target:
-// recover, wall-clock bound judged with a confirmation re-run, allocation
+// recover, CPU-time bound (thread rusage) judged with a confirmation re-run, allocation
 // accounting (TotalAlloc delta <= 2048*len(input) + 4 MiB).
 package c02
 
@@ -11,6 +11,7 @@ import (
 	"reflect"
 	"runtime"
 	"runtime/debug"
+	"syscall"
 	"testing"
 	"time"
 
@@ -58,10 +59,14 @@ type outcome struct {
 func decodeOnce(typ reflect.Type, data []byte, service bool) outcome {
 	done := make(chan outcome, 1)
 	go func() {
+		// the time bound is judged on the CPU time of this thread, not on wall
+		// time: a busy machine stretches wall time arbitrarily
+		runtime.LockOSThread()
+		defer runtime.UnlockOSThread()
 		var o outcome
 		var m0, m1 runtime.MemStats
 		runtime.ReadMemStats(&m0)
-		t0 := time.Now()
+		t0 := threadCPU()
 		func() {
 			defer func() {
 				if r := recover(); r != nil {
@@ -78,7 +83,7 @@ func decodeOnce(typ reflect.Type, data []byte, service bool) outcome {
 			w := reflect.New(typ.Elem()).Interface()
 			o.n, o.err = ua.Decode(data, w)
 		}()
-		o.dur = time.Since(t0)
+		o.dur = threadCPU() - t0
 		runtime.ReadMemStats(&m1)
 		o.alloc = m1.TotalAlloc - m0.TotalAlloc
 		done <- o
@@ -86,16 +91,33 @@ func decodeOnce(typ reflect.Type, data []byte, service bool) outcome {
 	select {
 	case o := <-done:
 		return o
-	case <-time.After(30 * time.Second):
-		return outcome{hung: true, dur: 30 * time.Second}
+	case <-time.After(hangBound):
+		return outcome{hung: true, dur: hangBound}
 	}
+}
+
+// hangBound is a wall-clock bound, so it is generous (the slowest legitimate
+// case, a 100000-level tower on a saturated machine, takes well under a minute)
+// and a hit is confirmed by re-running before it counts.
+const hangBound = 4 * time.Minute
+
+func threadCPU() time.Duration {
+	var ru syscall.Rusage
+	if err := syscall.Getrusage(1 /* RUSAGE_THREAD */, &ru); err != nil {
+		return 0
+	}
+	return time.Duration(ru.Utime.Nano() + ru.Stime.Nano())
 }
 
 // judge returns "" if the property holds for this input.
 func judge(typ reflect.Type, data []byte, service bool) (string, outcome) {
 	o := decodeOnce(typ, data, service)
 	if o.hung {
-		return "decode did not return within 30 s", o
+		// confirm: only a decode that exceeds the bound twice counts
+		if o2 := decodeOnce(typ, data, service); !o2.hung {
+			return "", o2
+		}
+		return fmt.Sprintf("decode did not return within %v (twice)", hangBound), o
 	}
 	if o.pan != nil {
 		return fmt.Sprintf("decode panicked: %v", o.pan), o
@@ -115,7 +137,7 @@ func judge(typ reflect.Type, data []byte, service bool) (string, outcome) {
 		if o.alloc > limit {
 			return fmt.Sprintf("decoding %d input bytes allocated %d bytes (bound %d)", len(data), o.alloc, limit), o
 		}
-		return fmt.Sprintf("decoding %d input bytes took %v (bound %v)", len(data), o.dur, timeBound), o
+		return fmt.Sprintf("decoding %d input bytes took %v of CPU time (bound %v)", len(data), o.dur, timeBound), o
 	}
 	return "", o
 }
